@@ -52,4 +52,7 @@ func buildRegistry() {
 	ci.G1.Hash, ci.G1.HashDST = hash2Of(ci.G1.G), true
 	ci.G2.Hash, ci.G2.HashDST = hash2Of(ci.G2.G), true
 	ci.GT.HasPick = false
+	groupByNameRaw("ed25519").Alt = edwards25519.NewBlakeSHA256Ed25519()
+	s2 := circl.NewSuite()
+	ci.G1.Alt, ci.G2.Alt, ci.GT.Alt = s2.G1(), s2.G2(), s2.GT()
 }
